@@ -617,6 +617,8 @@ def zb(x):
     x = truth(x)
     if isinstance(x, SymBool):
         return x.b
+    if z3 is None:
+        return bool(x)              # solver-less replay processes work on plain values
     return z3.BoolVal(bool(x))
 
 
